@@ -22,8 +22,15 @@ type receivePayloadQueue struct {
 func newReceivePayloadQueue(maxTSNOffset uint32) *receivePayloadQueue {
 	maxTSNOffset = ((maxTSNOffset + 63) / 64) * 64
 
+	// The bitmask is a ring indexed by (tsn/64) % len: its length must divide
+	// 2^26 so that the mapping stays injective when the window wraps 2^32.
+	words := uint32(1)
+	for words < maxTSNOffset/64 {
+		words <<= 1
+	}
+
 	return &receivePayloadQueue{
-		tsnBitmask:   make([]uint64, maxTSNOffset/64),
+		tsnBitmask:   make([]uint64, words),
 		maxTSNOffset: maxTSNOffset,
 	}
 }
